@@ -114,19 +114,66 @@ def occ():
     return _F
 
 
-def _evalu(fn, *cols, grp=None):
-    """evaluate the scalar package function on the distinct argument tuples only.
-    grp = (inverse, representatives): all arguments are constant within a group (fast path)."""
+_SIG = {}
+
+
+def _binding(fname, have):
+    """ordered parameter names of the package helper `fname` that will be passed positionally.  Arguments are bound by
+    parameter NAME (inspect.signature of the py_func), so that a re-parameterised helper is still called correctly;
+    a helper that is gone or asks for a quantity this reference does not know makes the driver stale, not the property false."""
+    import inspect
+    from vf import core
+    key = (fname, tuple(sorted(have)))
+    if key in _SIG:
+        return _SIG[key]
+    G = occ()
+    fn = getattr(G, fname, None)
+    if fn is None:
+        raise core.Stale(f'c09_ref: occupation helper GRAND_HOD.{fname} no longer exists')
+    try:
+        pars = list(inspect.signature(getattr(fn, 'py_func', fn)).parameters.values())
+    except (TypeError, ValueError) as e:
+        raise core.Stale(f'c09_ref: cannot inspect GRAND_HOD.{fname}: {e}')
+    last = max((i for i, p in enumerate(pars) if p.name in have), default=-1)
+    spec = []
+    for i, p in enumerate(pars):
+        if p.kind not in (p.POSITIONAL_ONLY, p.POSITIONAL_OR_KEYWORD):
+            raise core.Stale(f'c09_ref: GRAND_HOD.{fname} has a parameter kind the driver cannot bind: {p}')
+        if p.name in have:
+            if i <= last:
+                spec.append(('name', p.name))
+        elif p.default is not p.empty:
+            if i < last:
+                spec.append(('const', float(p.default)))
+        else:
+            raise core.Stale(f'c09_ref: GRAND_HOD.{fname} asks for parameter {p.name!r}; the reference only knows {sorted(have)}')
+    _SIG[key] = (fn, spec)
+    return _SIG[key]
+
+
+def _evalu(fname, vals, grp=None):
+    """evaluate the scalar package function on the distinct argument tuples only; `vals` maps parameter names to values
+    (a superset of what the helper may ask for).  grp = (inverse, representatives): all arguments are constant within a
+    group (fast path)."""
+    from vf import core
+    fn, spec = _binding(fname, vals.keys())
+    cols = [vals[v] if k == 'name' else v for k, v in spec]
+
+    def call(args):
+        try:
+            return float(fn(*args))
+        except TypeError as e:      # wrong number / kind of arguments: the driver does not fit the helper any more
+            raise core.Stale(f'c09_ref: GRAND_HOD.{fname} cannot be called with {[v for _, v in spec]}: {e}')
     if grp is not None:
         inv, rep = grp
         cc = [np.asarray(c, dtype=np.float64) for c in cols]
-        vals = np.array([float(fn(*[float(c[i]) if c.ndim else float(c) for c in cc])) for i in rep], dtype=np.float64)
-        return vals[inv]
+        vals_ = np.array([call([float(c[i]) if c.ndim else float(c) for c in cc]) for i in rep], dtype=np.float64)
+        return vals_[inv]
     cols = np.broadcast_arrays(*[np.asarray(c, dtype=np.float64) for c in cols])
     A = np.stack(cols, axis=1)
     U, inv = np.unique(A, axis=0, return_inverse=True)
-    vals = np.array([float(fn(*[float(x) for x in row])) for row in U], dtype=np.float64)
-    return vals[np.asarray(inv).ravel()]
+    out = np.array([call([float(x) for x in row]) for row in U], dtype=np.float64)
+    return out[np.asarray(inv).ravel()]
 
 
 def _g(d, k, default=0.0):
@@ -135,20 +182,19 @@ def _g(d, k, default=0.0):
 
 def cen_widths(tr, mass, multi, dc, fe, sh, grp=None):
     """N x 3 central slice widths (0 for absent tracers)"""
-    G = occ()
     W = np.zeros((len(mass), 3))
     if 'LRG' in tr:
         d = tr['LRG']
         lmc = d['logM_cut'] + _g(d, 'Acent') * dc + _g(d, 'Bcent') * fe
-        W[:, 0] = _evalu(G.n_cen_LRG, mass, lmc, d['sigma'], grp=grp) * _g(d, 'ic', 1.0) * multi
+        W[:, 0] = _evalu('n_cen_LRG', dict(M_h=mass, logM_cut=lmc, M_cut=10.0 ** lmc, sigma=d['sigma']), grp=grp) * _g(d, 'ic', 1.0) * multi
     if 'ELG' in tr:
         d = tr['ELG']
         lmc = d['logM_cut'] + _g(d, 'Acent') * dc + _g(d, 'Bcent') * fe + _g(d, 'Ccent') * sh
-        W[:, 1] = _evalu(G.N_cen_ELG_v1, mass, d['p_max'], d['Q'], lmc, d['sigma'], d['gamma'], grp=grp) * _g(d, 'ic', 1.0) * multi
+        W[:, 1] = _evalu('N_cen_ELG_v1', dict(M_h=mass, p_max=d['p_max'], Q=d['Q'], logM_cut=lmc, M_cut=10.0 ** lmc, sigma=d['sigma'], gamma=d['gamma']), grp=grp) * _g(d, 'ic', 1.0) * multi
     if 'QSO' in tr:
         d = tr['QSO']
         lmc = d['logM_cut'] + _g(d, 'Acent') * dc + _g(d, 'Bcent') * fe
-        W[:, 2] = _evalu(G.N_cen_QSO, mass, lmc, d['sigma'], grp=grp) * _g(d, 'ic', 1.0) * multi
+        W[:, 2] = _evalu('N_cen_QSO', dict(M_h=mass, logM_cut=lmc, M_cut=10.0 ** lmc, sigma=d['sigma']), grp=grp) * _g(d, 'ic', 1.0) * multi
     return W
 
 
@@ -160,13 +206,12 @@ def _deco(d, enable_ranks, rk):
 
 def sat_widths(tr, enable_ranks, mass, weight, dc, fe, sh, rk, kc, grp=None):
     """N x 3 satellite slice widths; kc = 1/2 when the host halo carries an LRG/ELG central, else 0"""
-    G = occ()
     W = np.zeros((len(mass), 3))
     if 'LRG' in tr:
         d = tr['LRG']
         lmc = d['logM_cut'] + _g(d, 'Acent') * dc + _g(d, 'Bcent') * fe
         m1 = 10.0 ** (d['logM1'] + _g(d, 'Asat') * dc + _g(d, 'Bsat') * fe)
-        n = _evalu(G.n_sat_LRG_modified, mass, lmc, 10.0 ** lmc, m1, d['sigma'], d['alpha'], d['kappa'], grp=grp)
+        n = _evalu('n_sat_LRG_modified', dict(M_h=mass, logM_cut=lmc, M_cut=10.0 ** lmc, M_1=m1, logM_1=np.log10(m1), logM1=np.log10(m1), sigma=d['sigma'], alpha=d['alpha'], kappa=d['kappa']), grp=grp)
         W[:, 0] = n * weight * _g(d, 'ic', 1.0) * _deco(d, enable_ranks, rk)
     if 'ELG' in tr:
         d = tr['ELG']
@@ -175,13 +220,13 @@ def sat_widths(tr, enable_ranks, mass, weight, dc, fe, sh, rk, kc, grp=None):
         lm1 = np.where(kc == 1, _g(d, 'logM1_EL', d['logM1']) + ab,
                        np.where(kc == 2, _g(d, 'logM1_EE', d['logM1']) + ab, d['logM1'] + ab + _g(d, 'Csat') * sh))
         al = np.where(kc == 1, _g(d, 'alpha_EL', d['alpha']), np.where(kc == 2, _g(d, 'alpha_EE', d['alpha']), d['alpha']))
-        n = _evalu(G.N_sat_elg, mass, 10.0 ** lmc, d['kappa'], 10.0 ** lm1, al, d['A_s'], grp=grp)
+        n = _evalu('N_sat_elg', dict(M_h=mass, M_cut=10.0 ** lmc, logM_cut=lmc, kappa=d['kappa'], M_1=10.0 ** lm1, logM_1=lm1, logM1=lm1, alpha=al, A_s=d['A_s']), grp=grp)
         W[:, 1] = n * weight * _g(d, 'ic', 1.0) * _deco(d, enable_ranks, rk)
     if 'QSO' in tr:
         d = tr['QSO']
         lmc = d['logM_cut'] + _g(d, 'Acent') * dc + _g(d, 'Bcent') * fe
         m1 = 10.0 ** (d['logM1'] + _g(d, 'Asat') * dc + _g(d, 'Bsat') * fe)
-        n = _evalu(G.N_sat_generic, mass, 10.0 ** lmc, d['kappa'], m1, d['alpha'], grp=grp)
+        n = _evalu('N_sat_generic', dict(M_h=mass, M_cut=10.0 ** lmc, logM_cut=lmc, kappa=d['kappa'], M_1=m1, logM_1=np.log10(m1), logM1=np.log10(m1), alpha=d['alpha']), grp=grp)
         W[:, 2] = n * weight * _g(d, 'ic', 1.0) * _deco(d, enable_ranks, rk)
     return W
 
